@@ -46,7 +46,7 @@ def census_rules(ctx, m, twf):
     w = m.w
     # ---------------------------------------------------------------- (1) append-only census
     n_sites = 0
-    for f in list(ctx.prog.fns.values()):
+    for f in list(ctx.prog.units()):
         s = w.effects.summary(f)
         fq = m.q(f)
         for (loc, b, sp, what) in s["sites"]:
@@ -54,11 +54,11 @@ def census_rules(ctx, m, twf):
                 continue  # transitive: judged at the leaf
             touches = False
             if m.f_trades in loc.path and loc.root[0] == "param":
-                ty = f.body.local_ty(loc.root[1])
+                ty = fq.body.local_ty(loc.root[1])
                 if "orderbook::OrderBook<" in ty or "Market<" in ty or "Env<" in ty:
                     touches = True
             if loc.root[0] in ("param", "local"):
-                ty = f.body.local_ty(loc.root[1])
+                ty = fq.body.local_ty(loc.root[1])
                 if "Vec<bourse_book::types::Trade>" in ty and not loc.path:
                     touches = True
             if not touches:
@@ -67,14 +67,14 @@ def census_rules(ctx, m, twf):
             where = "%s:%s (%s)" % (sp["file"], sp["line"], f.short())
             ok = (f.path == twf.path and what == "extern push")
             # constructors building a fresh local Vec<Trade> (deserialisation) are not mutations of a book's log
-            if loc.root[0] == "local" and f.path != twf.path and "OrderBook" not in f.body.local_ty(loc.root[1]):
+            if loc.root[0] == "local" and f.path != twf.path and "OrderBook" not in fq.body.local_ty(loc.root[1]):
                 ok = ok or f.impl_trait is not None or f.crate.name != "bourse_book"
             ctx.check(ok, "append-only", "%s|%s" % (f.short(), what), where,
                       "the only mutation of the trade log is the push in the trade writer",
                       "trade log mutated by `%s` in %s (only `push` in %s may write it)" % (what, f.short(), twf.short()))
     ctx.check(n_sites >= 1, "append-only", "census-nonempty", "-", "trade-log mutation census found %d site(s)" % n_sites)
     # no pub API of the book/market/envs returns a mutable path to trades
-    for f in ctx.prog.fns.values():
+    for f in ctx.prog.units():
         import re
         if f.pub and "->" in f.sig and re.search(r"&('\w+ )?mut ", f.sig.split("->")[-1]) and "Trade" in f.sig.split("->")[-1]:
             ctx.bad("append-only", "mutref-api|" + f.short(), ctx.loc(f), "pub fn returns a mutable reference to trade data: " + f.sig)
@@ -195,7 +195,7 @@ def ledger_rules(ctx, m, twf, q, push, pas, agg, tparam, delta):
         seen[f.path] = f
         st.extend(w.callees(f))
     n = 0
-    for f in ctx.prog.fns.values():
+    for f in ctx.prog.units():
         if f.crate.name != "bourse_book":
             continue
         fq = m.q(f)
@@ -220,7 +220,7 @@ def fill_flow(ctx, m, twf, rule="counter"):
     accumulates such results, and is itself flushed into the counter or returned (then the function *returns fills* and
     its call sites are sources in turn).  Every other write of the counter must be the reset (`= 0`)."""
     from analysis.origin import strip
-    book = [f for f in ctx.prog.fns.values() if f.crate.name == "bourse_book"]
+    book = [f for f in ctx.prog.units() if f.crate.name == "bourse_book"]
     summary = {}          # fn path -> True if the function returns uncounted fills
     sinks = set()         # (fn path, block, stmt index) of recognised counter updates
     n_src = [0]
